@@ -57,6 +57,9 @@ CLAIMS = {
  'C17': dict(tech='must-fact gating via TermFlow, syntactic+resolved forwarding check over trait impls, call inventory, stale-pointer term comparison',
    text='Decides: downcast reinterprets only under is::<T>() and the array conversion only under len(slice) == N, Err arms return the original box; all 33 forwarding trait methods on Box call the same-named method of the same trait with parameters in order (one tabled exception: Iterator::last via fold); Box::new_in allocates through the arena, no Box code calls an arena deallocation entry, Drop for Box is drop_in_place of the pointee; the pointer handed out by Vec -> slice/Box conversions is the buffer pointer at the moment the vector is forgotten. Value equality with std::boxed::Box for all programs is not decided.',
    ref='DESIGN.md section 4 C17'),
+ 'C19': dict(tech='integer-overflow discipline: TermFlow term decomposition at size sinks with path no-overflow facts, a justified invariant table, and a reserve postcondition proof',
+   text='Decides for every function (standalone, symbolic arguments) that each size reaching a sink — unchecked Layout construction, arena allocation layouts, set_len / len / cap stores, from_raw_parts lengths, copy counts, reserve amounts — contains no unchecked add/mul/shl/sum that is not justified by a checked-operation success fact on that path, by a preceding reserve on the same container, or by a tabled invariant; public arena methods allocate only with validated layouts; the RawVec reserve family\'s successful returns entail used + extra <= capacity with wrapping arithmetic kept apart from checked arithmetic; the bumping function keeps the pointer inside the chunk for every Layout. 32-bit alloc_guard behaviour is outside what can be decided here.',
+   ref='DESIGN.md section 4 C19'),
 }
 
 NOT_YET = 'check not built yet (build in progress, see DESIGN.md section 9)'
